@@ -177,3 +177,33 @@ Fixpoint spec_ctx (deadl : list bool) (ops : list xop) (obs : list (list bool)) 
       else true
   | _, _ => false
   end.
+
+(* the history on the specification side: which threads have died; its domain *)
+Fixpoint srun (d : list bool) (ops : list xop) : list bool :=
+  match ops with [] => d | o :: t => srun (sstep d o) t end.
+Fixpoint sdomrun (d : list bool) (ops : list xop) : bool :=
+  match ops with [] => true | o :: t => sdom d o && sdomrun (sstep d o) t end.
+
+(* release without the `if p.dead` guard (the seeded change C12-10), for ctx_release_noguard_refuted *)
+Fixpoint release_noguard (fuel : nat) (f : forest) (i : nat) : option forest :=
+  match fuel with
+  | O => None
+  | S fu =>
+      match nth_error f i with
+      | None => Some f
+      | Some n =>
+          if nreleased n || (nchildren n >? 0) then Some f
+          else
+            let f1 := setn i (mkNode (ncreator n) true None (nchildren n) (ndead n)) f in
+            match nparent n with
+            | None => Some f1
+            | Some p =>
+                match nth_error f1 p with
+                | None => Some f1
+                | Some pn =>
+                    release_noguard fu (setn p (mkNode (ncreator pn) (nreleased pn) (nparent pn) (nchildren pn - 1) (ndead pn)) f1) p
+                end
+            end
+      end
+  end.
+
